@@ -83,7 +83,10 @@ class Gen:
                 quoted.append(False)
             else:
                 args.append(rng.choice(["hello world", "a\"b", "back\\slash", "[x]", "// not a comment", "/* nor this */", "é中文",
-                                        "", "]", "a,b", "(", "tab\there", "q'q", "\\\"both\\\""]))
+                                        "", "]", "a,b", "(", "tab\there", "q'q", "\\\"both\\\"",
+                                        # escapes and multi-byte characters in every order
+                                        "quote \"na\u00efve\" \U0001F600", "\u00e9\"\u00e9", "\\\u4e2d\u6587\\", "\U0001F600\"\U0001F600\\\U0001F600",
+                                        "\"\u20ac", "\u20ac\\", "a\\b\u00e9\"c\U0001F600"]))
                 quoted.append(True)
         return Attr(directive, args, quoted)
 
